@@ -18,13 +18,14 @@ ASSUMPTIONS = [
     "the shared stream is the RandomSource handed to the representation's decider / to create_genotype (dSGE keeps it in the genotype)",
     "dSGE may draw from the shared stream only inside Genotype.get (on-demand extension) and only while a gene is missing; a re-mapping draws nothing",
     "programs are compared by canonical text (class names, field values)",
+    "a third of the grammars declare their fields as strings (postponed evaluation), so the library resolves them anew on every expansion",
 ]
 PLAN = {
     "quick": {"shards": 8, "shard_timeout": 400, "case_timeout": 25, "grammars": 200, "max_case_timeouts": 6},
     "thorough": {"shards": 16, "shard_timeout": 3600, "case_timeout": 40, "grammars": 16000, "max_case_timeouts": 160},
 }
 THRESHOLDS = {
-    "quick": {"remapped:ge": 300, "remapped:sge": 300, "remapped:dsge": 300, "remapped:stack": 60, "genotypes_with_refined_fields": 300, "dsge_extension_draws": 100, "after_variation": 300},
+    "quick": {"remapped:ge": 300, "remapped:sge": 300, "remapped:dsge": 300, "remapped:stack": 60, "genotypes_with_refined_fields": 300, "dsge_extension_draws": 100, "after_variation": 300, "remapped_with_string_annotations:dsge": 80, "remapped_with_string_annotations:ge": 80},
     "thorough": {"remapped:ge": 5000, "remapped:sge": 5000, "remapped:dsge": 5000, "remapped:stack": 800},
 }
 
@@ -33,7 +34,11 @@ REPRS = ["ge", "sge", "dsge", "stack"]
 
 def gen_cases(tier, seed):
     rng = pyrandom.Random(f"c07-{seed}")
-    for desc in grammars.family(seed, PLAN[tier]["grammars"], "general"):
+    for gi, desc in enumerate(grammars.family(seed, PLAN[tier]["grammars"], "general")):
+        if gi % 3 == 2 and not desc.get("python"):
+            # the same classes declared with STRING annotations (postponed evaluation, quoted forward references): the library
+            # resolves them on every expansion, so every refinement is a new object each time
+            desc = dict(desc, _string_annotations=True, name=desc["name"] + "~str")
         for rk in REPRS:
             yield {
                 "desc": desc,
@@ -160,6 +165,8 @@ def _run(ctx, case, rec):
                     rec.distinct_add([kind, a])
             if refined:
                 rec.count("genotypes_with_refined_fields")
+            if case["desc"].get("_string_annotations"):
+                rec.count(f"remapped_with_string_annotations:{kind}")
             rec.sample({"grammar": case["desc"]["name"], "repr": kind, "origin": origin, "program": ctx.model.canon(p1)[:200], "shared_draws_first_mapping": len(used1)})
 
         for _ in range(3):
